@@ -187,12 +187,25 @@ def hostile_instance(r):
     ints = [-1, 0, 1, 2, 3, 7, 8, 12, 16, 24, 32, 64, 65, 128]
     odd = [None, "8", 8.0, True, (8,), -8]
 
+    ill = []        # ill-TYPED draws (a str/float/tuple/None where an int, a str or an iterable is documented)
+
     def val(pool=ints, p_odd=0.15):
-        return r.choice(odd) if r.random() < p_odd else r.choice(pool)
+        v = r.choice(odd) if r.random() < p_odd else r.choice(pool)
+        if not isinstance(v, int) and not (v is None and None in pool):
+            ill.append(v)
+        return v
+
+    def cat(pool, bad):
+        v = r.choice(pool)
+        if any(v is b or (type(v) is type(b) and v == b) for b in bad):
+            ill.append(v)
+        return v
     kind = r.choice(["MemoryMap", "csr.Signature", "csr.Element.Signature", "wishbone.Signature", "wishbone.Decoder",
                      "wishbone.Arbiter", "WishboneSRAM", "csr.Decoder", "csr.Builder", "EventMonitor",
                      "gpio.Peripheral", "WishboneCSRBridge", "event.Source", "csr.action.RW", "csr.Multiplexer"])
-    feats = r.choice([(), ("err",), ("lock", "cti"), ("bogus",), ("err", "rty", "stall", "lock", "cti", "bte"), "err", None])
+    feats = cat([(), ("err",), ("lock", "cti"), ("bogus",), ("err", "rty", "stall", "lock", "cti", "bte"), "err", None], ["err", None])
+    feats_ill = list(ill)
+    ill.clear()
     P = {}
     if kind == "MemoryMap":
         P = dict(addr_width=val(), data_width=val(), alignment=val([-1, 0, 1, 2, 5, 40]))
@@ -201,7 +214,7 @@ def hostile_instance(r):
         P = dict(addr_width=val(), data_width=val())
         mk = lambda: csr.Signature(**P).create()
     elif kind == "csr.Element.Signature":
-        P = dict(width=val(), access=r.choice(["r", "w", "rw", "nc", "x", None, 3]))
+        P = dict(width=val(), access=cat(["r", "w", "rw", "nc", "x", None, 3], [None, 3]))
         mk = lambda: csr.Element.Signature(**P).create()
     elif kind in ("wishbone.Signature", "wishbone.Decoder", "wishbone.Arbiter"):
         P = dict(addr_width=val(), data_width=val(), granularity=val(ints + [None, None]), features=feats)
@@ -214,7 +227,7 @@ def hostile_instance(r):
             mk = lambda: wishbone.Arbiter(**P)
     elif kind == "WishboneSRAM":
         P = dict(size=val([0, 1, 2, 3, 4, 8, 64, 100, 1024]), data_width=val(), granularity=val(ints + [None, None]),
-                 writable=r.choice([True, False, None, 1]), init=r.choice([(), [1, 2], [1 << 70], "ab", None]))
+                 writable=cat([True, False, None, 1], [None]), init=cat([(), [1, 2], [1 << 70], "ab", None], ["ab", None]))
         mk = lambda: WishboneSRAM(**P)
     elif kind == "csr.Decoder":
         P = dict(addr_width=val(), data_width=val(), alignment=val([-1, 0, 1, 3, 40]))
@@ -227,7 +240,7 @@ def hostile_instance(r):
             b.add("r", csr.Register({"f": csr.Field(action.RW, 8)}, access="rw"))
             return csr.Bridge(b.as_memory_map())
     elif kind == "EventMonitor":
-        P = dict(n=r.choice([0, 1, 5, 9]), trigger=r.choice(["level", "rise", "fall", "edge", None]),
+        P = dict(n=r.choice([0, 1, 5, 9]), trigger=cat(["level", "rise", "fall", "edge", None], [None]),
                  data_width=val(), alignment=val([-1, 0, 1, 2, 9]))
 
         def mk():
@@ -247,7 +260,7 @@ def hostile_instance(r):
             cb.memory_map = MemoryMap(addr_width=P["csr_aw"], data_width=P["csr_dw"])
             return WishboneCSRBridge(cb, data_width=P["data_width"])
     elif kind == "event.Source":
-        P = dict(trigger=r.choice(["level", "rise", "fall", "both", 0, None]))
+        P = dict(trigger=cat(["level", "rise", "fall", "both", 0, None], [0, None]))
         mk = lambda: event.Monitor(_one_source_map(P["trigger"]))
     elif kind == "csr.action.RW":
         P = dict(shape=val([0, 1, 8, 33, -3]), init=val([0, 1, 255, 256, -1, 1 << 40]))
@@ -268,7 +281,9 @@ def hostile_instance(r):
             m = Module()
             return {"design": m, "ins": {}, "outs": {}, "clocked": False, "meta": [], "top": False}
         return {"design": d, "ins": {}, "outs": {}, "clocked": False, "meta": [], "top": True}
-    return {"cls": "hostile:" + kind, "params": {k: repr(v) for k, v in P.items()} | {"features": repr(feats)}, "thunk": thunk}
+    uses_feats = kind in ("wishbone.Signature", "wishbone.Decoder", "wishbone.Arbiter")
+    return {"cls": "hostile:" + kind, "params": {k: repr(v) for k, v in P.items()} | {"features": repr(feats)}, "thunk": thunk,
+            "illtyped": bool(ill or (uses_feats and feats_ill))}
 
 
 def _one_source_map(trigger):
@@ -369,8 +384,11 @@ def lifecycle(inst):
         return steps
     except Exception as e:
         signal.alarm(0)
-        log(op="build", outcome="refused" if descriptive(e) else "internal",
-            exc=f"{type(e).__name__}: {str(e)[:150]}")
+        # an ill-TYPED argument (a str where an int is documented ...) refused by the constructor with a
+        # TypeError/ValueError is a refusal, whatever expression raised it: the statement is about
+        # accepted parameters, and no dynamically typed library promises more for ill-typed ones
+        ok = descriptive(e) or (inst.get("illtyped") and isinstance(e, (TypeError, ValueError)))
+        log(op="build", outcome="refused" if ok else "internal", exc=f"{type(e).__name__}: {str(e)[:150]}")
         return steps
     design = built["design"]
     log(op="meta", meta=metadata(built))
@@ -505,7 +523,7 @@ def main(tier):
         "converted again (four elaborations), with the metadata fingerprinted in between; TLC validates each "
         "recorded life cycle against Lifecycle.tla. distinct = distinct (class, parameters); all non-trivial.")
     run.assumptions += ["non-termination is observed as a RecursionError or a 90 s alarm",
-                        "a refusal is descriptive iff it is a ValueError/TypeError whose innermost frame is a raise statement"]
+                        "a refusal is descriptive iff it is a ValueError/TypeError whose innermost frame is a raise statement (for ill-typed arguments - a str where an int is documented - any TypeError/ValueError from the constructor counts)"]
     r = rng("c19")
     insts = instances(r, 1400 if thorough else 420)
     _INSTS[:] = insts
